@@ -365,3 +365,37 @@ fn c13_reno_lost_n1() {
 fn c13_reno_lost_n3() {
     lost_step::<3>();
 }
+
+/// RemoveFromBytesInFlight (packet-number space discarded): PacketSpace::discard hands over exactly
+/// the packets still Inflight (c13_discard_n2).
+#[kani::proof]
+#[kani::unwind(6)]
+#[kani::stub(tokio::time::Instant::now, sym_now)]
+#[kani::stub(is_symbolic_run, stub_yes)]
+#[kani::stub(qevent::telemetry::macro_support::build_and_emit_event, no_emit)]
+fn c13_reno_remove() {
+    let now = h_start();
+    let mut r = any_reno(now);
+    let pkts: [SentPacket; 2] = core::array::from_fn(|_| {
+        let mut p = any_pkt(now);
+        p.state = State::Inflight;
+        p
+    });
+    let mut sum = 0usize;
+    let mut i = 0;
+    while i < 2 {
+        if pkts[i].count_for_cc {
+            sum += pkts[i].sent_bytes;
+        }
+        i += 1;
+    }
+    // in-flight accounting invariant: outstanding counted packets are included in bytes_in_flight
+    kani::assume(r.bytes_in_flight >= sum);
+    let pre = snap(&r);
+    r.remove_from_bytes_in_flight(&mut pkts.iter());
+    assert!(r.bytes_in_flight == pre.bif - sum, "bytes_in_flight drops by exactly the sizes of the counted outstanding packets");
+    assert!(same_except_bif(&pre, &r), "discarding a space does not touch the window");
+    kani::cover!(sum > 0 && r.bytes_in_flight == 0, "everything in flight belonged to the discarded space");
+    core::mem::forget(pkts);
+    core::mem::forget(r);
+}
